@@ -133,3 +133,36 @@ def typed_slot_family(mode: str, version: int):
         for pl in ("main", "interleaved"):
             out.append(("slots-typed:n%d:e%s:%s" % (n, "-".join(map(str, ex)), pl), typed_slot_program(mode, version, n, ex, pl), {}))
     return out
+
+
+def byref_forward_family(mode: str, version: int):
+    """a variable passed by reference through TWO routine levels (the outer routine hands its by-reference
+    parameter on); automatic and explicitly numbered variables; -> (name, recipe, needed, dup)"""
+    out = []
+    e = Env(mode, version)
+    N = ("Txn", "Fee")
+    inner = {"params": [("ref", "q")], "ret": "n", "body": ("PStore", "q", ("Bin", "BitwiseXor", ("PLoad", "q"), ("Int", 7)))}
+    inner2 = {"params": [("ref", "q"), ("val", "k")], "ret": "n",
+              "body": ("PStore", "q", ("Bin", "BitwiseXor", ("PLoad", "q"), ("Param", "k")))}
+    outer = {"params": [("ref", "p")], "ret": "n",
+             "body": ("Seq", ("Call", "inner", ("PRef", "p")), ("PStore", "p", ("Bin", "BitwiseXor", ("PLoad", "p"), ("Int", 256))),
+                      ("Call", "inner2", ("PRef", "p"), ("Int", 4096)))}
+    outer2 = {"params": [("ref", "a"), ("ref", "b")], "ret": "u",
+              "body": ("Seq", ("Call", "inner2", ("PRef", "b"), ("Int", 1 << 20)), ("Call", "inner", ("PRef", "a")),
+                       ("Return", ("Bin", "BitwiseXor", ("PLoad", "a"), ("PLoad", "b"))))}
+    subs = {"inner": inner, "inner2": inner2, "outer": outer, "outer2": outer2}
+
+    def logs(vs):
+        return ("Un", "Log", _concat([("Un", "Itob", ("Load", v)) for v in vs])) if mode == "A" and version >= 5 else \
+            ("Seq",) + tuple(("Assert", ("Bin", "Ge", ("Load", v), ("Int", 0))) for v in vs)
+
+    for label, slots in (("auto", (None, None, None)), ("explicit", (5, None, 200)), ("explicit-low", (0, 1, None)), ("explicit-adjacent", (None, 2, 3))):
+        V = {}
+        for nm, sid in zip(("v", "w", "z"), slots):
+            V[nm] = {"t": "u"} if sid is None else {"t": "u", "slot": sid}
+        main = ("Seq", ("Store", "v", N), ("Store", "w", marker(e, 11)), ("Store", "z", marker(e, 22)),
+                ("Call", "outer", ("Ref", "v")), ("Call", "outer", ("Ref", "z")),
+                ("Store", "w", ("Bin", "BitwiseXor", ("Load", "w"), ("Call", "outer2", ("Ref", "v"), ("Ref", "w")))),
+                e.tag(77), logs(["v", "w", "z"]), ("Return", ("Int", 1)))
+        out.append(("slots:byref-forward:%s" % label, prog(mode, main, V, dict(subs)), 3 + 6, False))
+    return out
